@@ -334,7 +334,7 @@ def run_serial_case(case, viol, counts):
     base = obs.run_single(pdbio.dump(recs), opts)
     mode = rng.choice(("random", "descending", "duplicates", "big", "negative", "restart-per-model", "shuffled"))
     if door:
-        mode = rng.choice(("shuffled", "shuffled", "restart-per-model", "descending-small"))
+        mode = rng.choice(("shuffled", "shuffled", "restart-per-model", "descending-small", "duplicates", "zero-on-hydrogens"))
     shuffled = list(range(1, len(pdbio.atoms(recs)) + 1))
     rng.shuffle(shuffled)
     out = []
@@ -355,8 +355,11 @@ def run_serial_case(case, viol, counts):
                 r.serial = ref.encode(87440031 - 37 * k, 5)
             elif mode == "descending-small":
                 r.serial = ref.encode(n_at - k, 5)
+            elif mode == "zero-on-hydrogens":
+                # hydrogens appended by another program often carry the serial 0
+                r.serial = ref.encode(0 if r.elem() == "H" else 1 + k, 5)
             elif mode == "duplicates":
-                r.serial = ref.encode(rng.choice((1, 1, 7, 100000, 43770016)), 5)
+                r.serial = ref.encode(rng.choice((1, 1, 7, 100000, 43770016, 0, 0, -1)), 5)
             elif mode == "big":
                 r.serial = ref.encode(99990 + k * 9973, 5)
             else:
